@@ -128,7 +128,10 @@ def handleFsl (args : List Json) : Json :=
         let rej ← (cfgj.getObjVal? "rej").toOption.bind asBool?
         pure ⟨sp.map parse, ext, rej⟩
       match cfg? with
-      | some cfg => jarr (ns.map fun n => jsource (fslGetSource cfg fs n))
+      | some cfg =>
+        match loaderInit cfg.ext with
+        | .error e => Json.mkObj [("ctor", jstr (excName e))]
+        | .ok _ => jarr (ns.map fun n => jsource (fslGetSource cfg fs n))
       | none => jerr "bad-cfg"
     | _, _ => jerr "bad-fs"
   | _ => jerr "bad-args"
@@ -144,7 +147,10 @@ def handlePkg (args : List Json) : Json :=
         let ext ← (cfgj.getObjVal? "ext").toOption.bind asName?
         pure ⟨sp.map parse, ext⟩
       match cfg? with
-      | some cfg => jarr (ns.map fun n => jsource (pkgGetSource cfg fs n))
+      | some cfg =>
+        match loaderInit (some cfg.ext) with
+        | .error e => Json.mkObj [("ctor", jstr (excName e))]
+        | .ok _ => jarr (ns.map fun n => jsource (pkgGetSource cfg fs n))
       | none => jerr "bad-cfg"
     | _, _ => jerr "bad-fs"
   | _ => jerr "bad-args"
